@@ -29,16 +29,28 @@ def QC (Lx Ly Lz : Nat) (x y z : Int) : Prop :=
 
 instance (Lx Ly Lz : Nat) (x y z : Int) : Decidable (QC Lx Ly Lz x y z) := by unfold QC; infer_instance
 
+/-- `Lz = 4`, `Lx = 4`, `Ly ≥ 5`: the kept lower axis-0 triangles under the hole edge `(3, ·, 3)` -/
+def QY (Lx Ly Lz : Nat) (x y z : Int) : Prop :=
+  x = 2 ∧ 4 ≤ y ∧ y ≤ 2 * (Ly : Int) - 6 ∧ z = 2 ∧ (x + y + z) % 4 = 0 ∧ Lz = 4 ∧ Lx = 4 ∧ 5 ≤ Ly
+
+/-- `Lz = 4`, `Ly = 5`, `Lx ≥ 5`: the kept lower axis-0 triangles under the hole edge `(·, 3, 3)` -/
+def QX (Lx Ly Lz : Nat) (x y z : Int) : Prop :=
+  4 ≤ x ∧ x ≤ 2 * (Lx : Int) - 4 ∧ y = 2 ∧ z = 2 ∧ (x + y + z) % 4 = 0 ∧ Lz = 4 ∧ Ly = 5 ∧ 5 ≤ Lx
+
+instance (Lx Ly Lz : Nat) (x y z : Int) : Decidable (QY Lx Ly Lz x y z) := by unfold QY; infer_instance
+instance (Lx Ly Lz : Nat) (x y z : Int) : Decidable (QX Lx Ly Lz x y z) := by unfold QX; infer_instance
+
 /-- the selection clause of a listed triangle -/
 def SelC (Lx Ly Lz : Nat) (a x y z : Int) : Prop :=
   a = 3 ∨ a = 2 ∨ (a = 1 ∧ (¬ PT Lx Ly Lz 3 x y z ∨ ¬ PT Lx Ly Lz 2 x y z)) ∨
   (a = 0 ∧ (x = 2 * (Lx : Int) - 2 ∨ ((x + y + z) % 4 = 2 ∧ 2 ≤ z) ∨
-    ((x + y + z) % 4 = 0 ∧ z < 2 * (Lz : Int) - 2 ∧ ¬ PT Lx Ly Lz 0 x y (z + 2)) ∨ QC Lx Ly Lz x y z))
+    ((x + y + z) % 4 = 0 ∧ z < 2 * (Lz : Int) - 2 ∧ ¬ PT Lx Ly Lz 0 x y (z + 2)) ∨ QC Lx Ly Lz x y z ∨
+    QY Lx Ly Lz x y z ∨ QX Lx Ly Lz x y z))
 
 theorem selTri_iff {Lx Ly Lz : Nat} {a x y z : Int} (ha : 0 ≤ a ∧ a < 4) :
     selTri Lx Ly Lz [a, x, y, z] = true ↔ SelC Lx Ly Lz a x y z := by
   have h : a = 0 ∨ a = 1 ∨ a = 2 ∨ a = 3 := by omega
-  unfold SelC QC
+  unfold SelC QC QY QX
   rcases h with rfl | rfl | rfl | rfl
   · simp [selTri, presB_false_iff, and_assoc, or_assoc]
   · simp [selTri, presB_false_iff]
@@ -85,6 +97,8 @@ def probeKeys (Lx Ly Lz : Nat) (a x y z : Int) : List Coord :=
   else if (x + y + z) % 4 = 2 then [[x, y, z - 1]]
   else if QC Lx Ly Lz x y z then
     (if 4 ≤ Lx then [[3, 2, z], [4, 2, z - 1], [3, 2, z - 2]] else [[2, 3, z], [2, 4, z - 1], [2, 3, z - 2]])
+  else if QY Lx Ly Lz x y z then [[3, y, 2], [4, y - 1, 2], [3, y - 2, 2]]
+  else if QX Lx Ly Lz x y z then [[x, 3, 2], [x - 1, 4, 2]]
   else [[x, y, z + 1]]
 
 /-- the qubit of the probe of a cube -/
